@@ -33,6 +33,78 @@ type Case struct {
 	DirSize uint16 `json:"dirsize,omitempty"`
 	// rread: SetTag is called between InitRread and SetRreadCount
 	TagFirst bool `json:"tagfirst,omitempty"`
+	// The Fcall is not fresh. Fill: byte pattern repeated over the whole of
+	// Fcall.Buf before anything is built in it. Prev: reference bytes of an
+	// earlier message (dialect PrevDotu) that is built in the same Fcall first
+	// and given its real tag, the way a recycled Fcall looks.
+	Fill     []byte `json:"fill,omitempty"`
+	Prev     []byte `json:"prev,omitempty"`
+	PrevDotu bool   `json:"prevdotu,omitempty"`
+	// further SetTag calls on the constructed packet, after NewTag
+	Tags []uint16 `json:"tags,omitempty"`
+	// SetTag calls on the Fcall that came out of Unpack
+	UTags []uint16 `json:"utags,omitempty"`
+}
+
+// newFcall gives an Fcall with room for need+c.Slack bytes (and for c.Prev) in
+// the state the case describes: fresh, or with a buffer that already served.
+func newFcall(c *Case, need int) (*go9p.Fcall, error) {
+	if len(c.Prev) > need {
+		need = len(c.Prev)
+	}
+	fc := go9p.NewFcall(uint32(need + c.Slack))
+	if len(c.Fill) > 0 {
+		for i := range fc.Buf {
+			fc.Buf[i] = c.Fill[i%len(c.Fill)]
+		}
+	}
+	if len(c.Prev) > 0 {
+		pm, n, err := ref9p.Decode(c.Prev, c.PrevDotu)
+		if err != nil || n != len(c.Prev) {
+			return nil, fmt.Errorf("harness: reference bytes of the earlier message do not decode: %v", err)
+		}
+		conv.DirSize = 0
+		if err := conv.Pack(fc, pm, c.PrevDotu); err != nil {
+			return nil, fmt.Errorf("constructor refused a representable %s (earlier message in the same Fcall): %v", ref9p.TypeName(pm.Type), err)
+		}
+		if want := ref9p.SetTag(c.Prev, ref9p.NOTAG); !bytes.Equal(fc.Pkt, want) {
+			return nil, fmt.Errorf("%s dotu=%v (earlier message in the same Fcall, fill %x): packet differs from the protocol layout at byte %d:\n got  %s\n want %s", ref9p.TypeName(pm.Type), c.PrevDotu, c.Fill, firstDiff(fc.Pkt, want), hexs(fc.Pkt), hexs(want))
+		}
+		go9p.SetTag(fc, pm.Tag)
+		if !bytes.Equal(fc.Pkt, c.Prev) {
+			return nil, fmt.Errorf("%s (earlier message in the same Fcall): after SetTag(%d) packet differs at byte %d", ref9p.TypeName(pm.Type), pm.Tag, firstDiff(fc.Pkt, c.Prev))
+		}
+	}
+	return fc, nil
+}
+
+func (c *Case) bufState() string {
+	switch {
+	case len(c.Fill) > 0 && len(c.Prev) > 0:
+		return fmt.Sprintf("filled with %x, then used for a %d-byte message", c.Fill, len(c.Prev))
+	case len(c.Fill) > 0:
+		return fmt.Sprintf("filled with %x", c.Fill)
+	case len(c.Prev) > 0:
+		return fmt.Sprintf("used before for a %d-byte message", len(c.Prev))
+	}
+	return "fresh"
+}
+
+// tagSeq applies SetTag for every tag in turn to fc, whose packet must be ref
+// with that tag (and nothing else changed) after every call.
+func tagSeq(fc *go9p.Fcall, ref []byte, tags []uint16, what string) error {
+	for i, tg := range tags {
+		go9p.SetTag(fc, tg)
+		want := ref9p.SetTag(ref, tg)
+		if !bytes.Equal(fc.Pkt, want) {
+			at := firstDiff(fc.Pkt, want)
+			return fmt.Errorf("%s: after SetTag call %d of %v (tag %#04x) the packet differs at byte %d (bytes 5..6 = %x, want %x)", what, i+1, tags, tg, at, fc.Pkt[5:7], want[5:7])
+		}
+		if fc.Tag != tg {
+			return fmt.Errorf("%s: after SetTag call %d of %v Fcall.Tag = %#04x, want %#04x", what, i+1, tags, fc.Tag, tg)
+		}
+	}
+	return nil
 }
 
 func run(c *Case) (err error) {
@@ -60,7 +132,10 @@ func runMsg(c *Case) error {
 	if err != nil || n != len(c.Pkt) {
 		return fmt.Errorf("harness: reference bytes do not decode: %v", err)
 	}
-	fc := go9p.NewFcall(uint32(len(c.Pkt) + c.Slack))
+	fc, err := newFcall(c, len(c.Pkt))
+	if err != nil {
+		return err
+	}
 	conv.DirSize = c.DirSize
 	if err := conv.Pack(fc, m, c.Dotu); err != nil {
 		return fmt.Errorf("constructor refused a representable %s: %v", ref9p.TypeName(m.Type), err)
@@ -73,7 +148,7 @@ func runMsg(c *Case) error {
 	// constructors always write NOTAG
 	want := ref9p.SetTag(c.Pkt, ref9p.NOTAG)
 	if !bytes.Equal(fc.Pkt, want) {
-		return fmt.Errorf("%s dotu=%v: packet differs from the protocol layout at byte %d:\n got  %s\n want %s", ref9p.TypeName(m.Type), c.Dotu, firstDiff(fc.Pkt, want), hexs(fc.Pkt), hexs(want))
+		return fmt.Errorf("%s dotu=%v (buffer %s): packet differs from the protocol layout at byte %d:\n got  %s\n want %s", ref9p.TypeName(m.Type), c.Dotu, c.bufState(), firstDiff(fc.Pkt, want), hexs(fc.Pkt), hexs(want))
 	}
 	if int(fc.Size) != len(fc.Pkt) {
 		return fmt.Errorf("Fcall.Size %d != len(Pkt) %d", fc.Size, len(fc.Pkt))
@@ -89,6 +164,13 @@ func runMsg(c *Case) error {
 	if fc.Tag != c.NewTag {
 		return fmt.Errorf("after SetTag Fcall.Tag = %d, want %d", fc.Tag, c.NewTag)
 	}
+	if err := tagSeq(fc, c.Pkt, c.Tags, fmt.Sprintf("constructed %s, first tagged %#04x", ref9p.TypeName(m.Type), c.NewTag)); err != nil {
+		return err
+	}
+	last := c.NewTag
+	if len(c.Tags) > 0 {
+		last = c.Tags[len(c.Tags)-1]
+	}
 	// decode what was built, followed by junk
 	in := append(append([]byte(nil), fc.Pkt...), c.Junk...)
 	got, consumed, derr := go9p.Unpack(in, c.Dotu)
@@ -102,10 +184,25 @@ func runMsg(c *Case) error {
 		return fmt.Errorf("decoded Size %d, packet is %d", got.Size, len(c.Pkt))
 	}
 	mm := *m
-	mm.Tag = c.NewTag
+	mm.Tag = last
 	a, b := ref9p.Canon(conv.FromFcall(got), c.Dotu), ref9p.Canon(&mm, c.Dotu)
 	if d := ref9p.Diff(a, b); d != "" {
 		return fmt.Errorf("%s dotu=%v: decoded field differs from the input: %s", ref9p.TypeName(m.Type), c.Dotu, d)
+	}
+	return unpackedTags(c, got, in, last)
+}
+
+// unpackedTags: a tag set on the Fcall that Unpack returned appears in that
+// Fcall's packet and disturbs neither the rest of it nor the bytes behind it.
+func unpackedTags(c *Case, got *go9p.Fcall, in []byte, tag uint16) error {
+	if len(c.UTags) == 0 {
+		return nil
+	}
+	if err := tagSeq(got, c.Pkt, c.UTags, fmt.Sprintf("%s that came out of Unpack with tag %#04x", ref9p.TypeName(got.Type), tag)); err != nil {
+		return err
+	}
+	if !bytes.Equal(in[len(c.Pkt):], c.Junk) {
+		return fmt.Errorf("SetTag %v on the Fcall that came out of Unpack changed bytes behind its packet", c.UTags)
 	}
 	return nil
 }
@@ -198,7 +295,10 @@ func runRread(c *Case) error {
 	if int(c.Init) < len(m.Data) {
 		return fmt.Errorf("harness: init < n")
 	}
-	fc := go9p.NewFcall(uint32(7 + 4 + int(c.Init) + c.Slack))
+	fc, err := newFcall(c, 7+4+int(c.Init))
+	if err != nil {
+		return err
+	}
 	if err := go9p.InitRread(fc, c.Init); err != nil {
 		return fmt.Errorf("InitRread(%d) with a %d-byte buffer: %v", c.Init, len(fc.Buf), err)
 	}
@@ -214,20 +314,27 @@ func runRread(c *Case) error {
 	}
 	go9p.SetRreadCount(fc, uint32(len(m.Data)))
 	if !bytes.Equal(fc.Pkt, want) {
-		return fmt.Errorf("InitRread(%d)+SetRreadCount(%d): packet differs at byte %d:\n got  %s\n want %s", c.Init, len(m.Data), firstDiff(fc.Pkt, want), hexs(fc.Pkt), hexs(want))
+		return fmt.Errorf("InitRread(%d)+SetRreadCount(%d) (buffer %s): packet differs at byte %d:\n got  %s\n want %s", c.Init, len(m.Data), c.bufState(), firstDiff(fc.Pkt, want), hexs(fc.Pkt), hexs(want))
 	}
 	if int(fc.Size) != len(want) || int(fc.Count) != len(m.Data) || len(fc.Data) != len(m.Data) {
 		return fmt.Errorf("SetRreadCount: Size=%d Count=%d len(Data)=%d, want %d %d %d", fc.Size, fc.Count, len(fc.Data), len(want), len(m.Data), len(m.Data))
 	}
-	go9p.SetTag(fc, c.NewTag)
-	got, consumed, derr := go9p.Unpack(append(append([]byte(nil), fc.Pkt...), c.Junk...), c.Dotu)
+	if err := tagSeq(fc, c.Pkt, append([]uint16{c.NewTag}, c.Tags...), "two-step Rread"); err != nil {
+		return err
+	}
+	last := c.NewTag
+	if len(c.Tags) > 0 {
+		last = c.Tags[len(c.Tags)-1]
+	}
+	in := append(append([]byte(nil), fc.Pkt...), c.Junk...)
+	got, consumed, derr := go9p.Unpack(in, c.Dotu)
 	if derr != nil || consumed != len(want) {
 		return fmt.Errorf("Unpack of two-step Rread: consumed %d err %v", consumed, derr)
 	}
-	if !bytes.Equal(got.Data[:got.Count], m.Data) || got.Tag != c.NewTag {
+	if !bytes.Equal(got.Data[:got.Count], m.Data) || got.Tag != last {
 		return fmt.Errorf("two-step Rread decodes to different data or tag")
 	}
-	return nil
+	return unpackedTags(c, got, in, last)
 }
 
 func firstDiff(a, b []byte) int {
@@ -271,7 +378,81 @@ func sampleOf(c *Case) interface{} {
 	if len(s.Junk) > 8 {
 		s.Junk = s.Junk[:8]
 	}
+	if len(s.Prev) > 32 {
+		s.Desc += fmt.Sprintf(" (prev truncated from %d bytes)", len(s.Prev))
+		s.Prev = s.Prev[:32]
+	}
 	return s
+}
+
+// tagG draws a tag; the sentinel NOTAG and its neighbours are frequent, so that
+// sequences "real tag, then NOTAG" and "NOTAG, then real tag" both come up.
+func tagG() *rapid.Generator[uint16] {
+	return rapid.OneOf(rapid.SampledFrom([]uint16{ref9p.NOTAG, ref9p.NOTAG, 0, 1, 0xFFFE, 0x00FF, 0xFF00}), gen9p.U16())
+}
+
+// drawReuse draws the state of the Fcall before the constructor is called and
+// the SetTag sequences applied afterwards.
+func drawReuse(t *rapid.T, c *Case, cfg gen9p.Cfg) {
+	switch rapid.IntRange(0, 5).Draw(t, "buf") {
+	case 0, 1: // fresh from NewFcall
+	case 2:
+		c.Fill = fillG().Draw(t, "fill")
+	case 3:
+		c.Fill = fillG().Draw(t, "fill")
+		fallthrough
+	default:
+		c.PrevDotu = rapid.Bool().Draw(t, "prevdotu")
+		pm := cfg.Msg(t, gen9p.AnyType(t), c.PrevDotu)
+		c.Prev = ref9p.Encode(pm, c.PrevDotu)
+	}
+	c.Tags = rapid.SliceOfN(tagG(), 0, 3).Draw(t, "tags")
+	c.UTags = rapid.SliceOfN(tagG(), 0, 3).Draw(t, "utags")
+}
+
+func fillG() *rapid.Generator[[]byte] {
+	return rapid.OneOf(rapid.SampledFrom([][]byte{{0xAA}, {0xFF}, {0x55}, {0x01}}), rapid.SliceOfN(rapid.Byte(), 1, 8).Filter(func(b []byte) bool {
+		for _, x := range b {
+			if x != 0 {
+				return true
+			}
+		}
+		return false
+	}))
+}
+
+// reuseLabel: class of the case with respect to buffer state and tag history.
+func reuseLabel(c *Case) string {
+	buf := "fresh"
+	switch {
+	case len(c.Fill) > 0 && len(c.Prev) > 0:
+		buf = "fill+prev"
+	case len(c.Fill) > 0:
+		buf = "fill"
+	case len(c.Prev) > len(c.Pkt):
+		buf = "prev-longer"
+	case len(c.Prev) > 0:
+		buf = "prev-shorter"
+	}
+	return fmt.Sprintf("buf=%s notag-after-real=%v notag-after-real-unpacked=%v", buf, sentinelAfterReal(c.NewTag, c.Tags), sentinelAfterReal(lastTag(c), c.UTags))
+}
+
+func lastTag(c *Case) uint16 {
+	if len(c.Tags) > 0 {
+		return c.Tags[len(c.Tags)-1]
+	}
+	return c.NewTag
+}
+
+func sentinelAfterReal(first uint16, seq []uint16) bool {
+	cur := first
+	for _, tg := range seq {
+		if tg == ref9p.NOTAG && cur != ref9p.NOTAG {
+			return true
+		}
+		cur = tg
+	}
+	return false
 }
 
 func TestReplay(t *testing.T) {
@@ -303,25 +484,46 @@ func TestRegress(t *testing.T) {
 
 // TestCanonicalTable: every type x dialect with all-zero and all-max fields.
 func TestCanonicalTable(t *testing.T) {
+	bad := 0
 	for _, dotu := range []bool{false, true} {
 		for _, typ := range ref9p.AllTypes {
 			for _, which := range []string{"zero", "max", "typical"} {
 				m := canonical(typ, which)
-				c := &Case{Kind: "msg", Dotu: dotu, Pkt: ref9p.Encode(m, dotu), Slack: 0, NewTag: 0xABCD, Desc: which}
-				hx.Eval()
-				hx.Label(fmt.Sprintf("canonical type=%s dotu=%v", ref9p.TypeName(typ), dotu))
-				if which != "zero" {
-					hx.NonTrivial("canon", typ, dotu, which)
-				}
-				hx.Sample("canonical", sampleOf(c))
-				if err := run(c); err != nil {
-					hx.Violation("canonical", c, err.Error())
-					t.Errorf("%v", err)
+				for _, state := range []string{"fresh", "fill-aa", "fill-ff", "prev"} {
+					c := &Case{Kind: "msg", Dotu: dotu, Pkt: ref9p.Encode(m, dotu), Slack: 0, NewTag: 0xABCD, Desc: which + " " + state}
+					switch state {
+					case "fill-aa":
+						c.Fill = []byte{0xAA}
+					case "fill-ff":
+						c.Fill = []byte{0xFF}
+					case "prev":
+						// longer than every message of the table, no zero byte in its body
+						c.PrevDotu = !dotu
+						c.Prev = ref9p.Encode(&ref9p.Msg{Type: ref9p.Twrite, Tag: 0x5A5A, Fid: 0xA5A5A5A5, Offset: 0xA5A5A5A5A5A5A5A5, Data: bytes.Repeat([]byte{0xA5}, 400)}, c.PrevDotu)
+					}
+					if state != "fresh" {
+						c.Tags = []uint16{ref9p.NOTAG, 1, ref9p.NOTAG, 0}
+						c.UTags = []uint16{ref9p.NOTAG, 0xABCD, 0, ref9p.NOTAG}
+					}
+					hx.Eval()
+					hx.Label(fmt.Sprintf("canonical type=%s dotu=%v", ref9p.TypeName(typ), dotu))
+					if which != "zero" {
+						hx.NonTrivial("canon", typ, dotu, which, state)
+					}
+					hx.Sample("canonical", sampleOf(c))
+					if err := run(c); err != nil {
+						hx.Violation("canonical", c, err.Error())
+						t.Errorf("%v", err)
+						if bad++; bad >= 5 {
+							// one defect shows in many rows; five replays say enough
+							t.Fatalf("canonical table abandoned after %d violations", bad)
+						}
+					}
 				}
 			}
 		}
 	}
-	hx.Exhaustive("canonical table: 27 types x 2 dialects x {all-zero, all-max, typical}")
+	hx.Exhaustive("canonical table: 27 types x 2 dialects x {all-zero, all-max, typical} x Fcall {fresh, filled 0xAA, filled 0xFF, used for a longer message}, the re-used ones with SetTag sequences through NOTAG on the built and on the decoded Fcall")
 }
 
 func canonical(typ uint8, which string) *ref9p.Msg {
@@ -376,8 +578,10 @@ func TestPropCodec(t *testing.T) {
 		if rapid.Bool().Draw(t, "withjunk") {
 			c.Junk = rapid.SliceOfN(rapid.Byte(), 1, 40).Draw(t, "junk")
 		}
+		drawReuse(t, c, cfg)
 		hx.Eval()
 		hx.Label(fmt.Sprintf("type=%s dotu=%v str=%s", ref9p.TypeName(typ), dotu, gen9p.StrClass(m)))
+		hx.Label(reuseLabel(c))
 		if nontrivial(m, dotu, c.Pkt) {
 			hx.NonTrivial("msg", dotu, c.Pkt)
 		}
@@ -421,7 +625,12 @@ func TestPropRread(t *testing.T) {
 		c.Slack = rapid.SampledFrom([]int{0, 1, 100}).Draw(t, "slack")
 		c.NewTag = gen9p.U16().Draw(t, "newtag")
 		c.TagFirst = rapid.Bool().Draw(t, "tagfirst")
+		if rapid.Bool().Draw(t, "withjunk") {
+			c.Junk = rapid.SliceOfN(rapid.Byte(), 1, 40).Draw(t, "junk")
+		}
+		drawReuse(t, c, gen9p.Cfg{Heavy: true, MaxData: 20000})
 		hx.Eval()
+		hx.Label("rread " + reuseLabel(c))
 		hx.Label(fmt.Sprintf("rread-two-step shrink=%v tagfirst=%v", n < init, c.TagFirst))
 		if n > 0 {
 			hx.NonTrivial("rread", init, c.Pkt)
@@ -452,6 +661,15 @@ func TestAllStringLengths(t *testing.T) {
 				m := &ref9p.Msg{Type: typ, Tag: uint16(ln), Version: s, Uname: s, Ename: s, Name: s, Wname: []string{"a", s}}
 				m.Stat.Name = s
 				c := &Case{Kind: "msg", Dotu: dotu, Pkt: ref9p.Encode(m, dotu), NewTag: uint16(ln) ^ 0x5555}
+				// two thirds of the lengths are built in an Fcall whose buffer is not zeroed
+				switch (ln + int(typ)/2) % 3 {
+				case 1:
+					c.Fill = []byte{0xAA}
+					c.Tags = []uint16{ref9p.NOTAG, uint16(ln)}
+				case 2:
+					c.Fill = []byte{0xFF, byte(ln)}
+					c.UTags = []uint16{ref9p.NOTAG}
+				}
 				hx.Eval()
 				hx.NonTrivial("len", typ, ln, dotu)
 				if err := run(c); err != nil {
